@@ -41,7 +41,9 @@ def make_env():
 
 
 STR_BODIES = ['}', '{', '${', '$', '{}', '}}', '}${', 'a}b', '$$', ' ', 'x', '{0}', '${v}', '&', '<', '>',
-              'é', '$${', ';', '\\\\', ':', '&copy=2', '&reg', '?a=1&currency=2', '&lt', '\x96', '&notin ', '&amp=']
+              'é', '$${', ';', '\\\\', ':', '&copy=2', '&reg', '?a=1&currency=2', '&lt', '\x96', '&notin ', '&amp=',
+              # runs of white space inside a literal are part of the value, wherever the expression is written
+              '  ', 'a   b', '\t', ' \t ', '\xa0 ', ' - ']
 
 
 def gen_string_literal(rng, avoid=''):
@@ -96,6 +98,40 @@ def gen_expr(rng, depth=0, avoid=''):
     if r < .96:
         return '{%s: %s}' % (gen_string_literal(rng, avoid), gen_expr(rng, 3, avoid))
     return '(%s, %s)[%d]' % (gen_expr(rng, depth + 1, avoid), gen_expr(rng, depth + 1, avoid), rng.randint(0, 1))
+
+
+def spread(rng, expr):
+    """The same expression written over several lines: line breaks (plus indentation) are inserted after operators
+    and brackets OUTSIDE string literals; the value is that of the one-line spelling."""
+    import io
+    import tokenize
+    try:
+        toks = list(tokenize.generate_tokens(io.StringIO(expr).readline))
+    except (tokenize.TokenError, SyntaxError, IndentationError):
+        return expr
+    out = []
+    pos = 0
+    infstr = 0
+    for t in toks:
+        if t.type in (tokenize.NEWLINE, tokenize.ENDMARKER, tokenize.NL):
+            continue
+        if t.start[0] != 1:
+            return expr
+        out.append(expr[pos:t.end[1]])
+        pos = t.end[1]
+        name = tokenize.tok_name[t.type]
+        if name == 'FSTRING_START':
+            infstr += 1
+        elif name == 'FSTRING_END':
+            infstr -= 1
+        if not infstr and ((t.type == tokenize.OP and t.string in (',', '+', '(', '[', '{', ':', '%', '&', '<', '>', '==')) or
+                           (t.type == tokenize.NAME and t.string in ('and', 'or', 'if', 'else', 'in', 'not'))) and rng.random() < .5:
+            out.append(rng.choice(['\n', '\n  ', '\n\t', '\n\n ', '\r\n ']))
+    out.append(expr[pos:])
+    res = ''.join(out)
+    if res == expr:
+        return expr
+    return rng.choice(['', '\n ']) + res + rng.choice(['', '\n'])
 
 
 def evaluate(expr, env):
